@@ -107,6 +107,29 @@ func calculate(doc billable) error {
 	t.Sum = calculateLineSum(doc.getLines(), cur)
 	t.Total = t.Sum
 
+	// Fixed discount and charge amounts are input data: bring them to the
+	// precision they are going to be presented with (see roundDiscounts and
+	// roundCharges) before they are used, so that calculating the result
+	// again is a no-op.
+	for _, d := range doc.getDiscounts() {
+		if d != nil && (d.Percent == nil || d.Percent.IsZero()) {
+			e := cur.Def().Subunits
+			if d.Base != nil {
+				e = d.Base.Exp()
+			}
+			d.Amount = d.Amount.RescaleDown(e)
+		}
+	}
+	for _, c := range doc.getCharges() {
+		if c != nil && (c.Percent == nil || c.Percent.IsZero()) {
+			e := cur.Def().Subunits
+			if c.Base != nil {
+				e = c.Base.Exp()
+			}
+			c.Amount = c.Amount.RescaleDown(e)
+		}
+	}
+
 	// Discount Lines
 	calculateDiscounts(doc.getDiscounts(), cur, t.Sum, rr)
 	if discounts := calculateDiscountSum(doc.getDiscounts(), cur); discounts != nil {
